@@ -148,7 +148,72 @@ def r12c(ctx):
                           f"string printed through it starts with a stray change marker and no longer parses back equal")
 
 
+def r12d(ctx):
+    m = ctx.model
+    ctx.rule("R12d", "an empty container is printed as something: a sequence formatter built with an empty opening and closing symbol "
+                     "(block styles: YAML) writes nothing at all for an empty list or mapping, and 'nothing' loads back as null; "
+                     "every handler of such a formatter that delegates to SequenceFormatter.print_SequenceNode must first test the "
+                     "node for emptiness and write an explicit empty form (`[]`, `{}`)")
+    SF = m.need_class("SequenceFormatter")
+    n = 0
+    # scope: formats whose loader reads the empty document as null (an explicit `build_tree(None, ...)` on the loading path);
+    # for the others "nothing" may be the correct form of an empty container (an empty CSV row, an empty Python module, the
+    # child list of an XML element, a plist <array></array> written by the handler itself)
+    fmts, default = m.formatter_registry()
+    scope = set()
+    for fq, info in sorted(m.filetypes().items()):
+        bt = m.method(fq, "build_tree")
+        if bt is None or info["default_formatter"] not in default:
+            continue
+        reads_empty_as_null = any(isinstance(c, ast.Call) and (call_name(c) or "").endswith("build_tree") and c.args
+                                  and isinstance(c.args[0], ast.Constant) and c.args[0].value is None
+                                  for f_ in loader_chain(m, bt) for c in walk_no_nested(f_.node))
+        if reads_empty_as_null:
+            scope |= {x.q for x in default[info["default_formatter"]].walk()}
+    for q in sorted(m.subclasses(SF)):
+        if q not in scope:
+            continue
+        init = m.method(q, "__init__")
+        if init is None or init.cls != q:
+            continue
+        sup = [c for c in walk_no_nested(init.node) if isinstance(c, ast.Call) and isinstance(c.func, ast.Attribute) and c.func.attr == "__init__"
+               and isinstance(c.func.value, ast.Call) and call_name(c.func.value) == "super"]
+        if not sup or len(sup[0].args) < 2:
+            continue
+        a0, a1 = sup[0].args[0], sup[0].args[1]
+        if not (isinstance(a0, ast.Constant) and a0.value == "" and isinstance(a1, ast.Constant) and a1.value == ""):
+            continue
+        short = q.rsplit(".", 1)[-1]
+        for name, (kind, fn) in sorted(m.attrs[q].items()):
+            if kind != "def" or not name.startswith("print_"):
+                continue
+            deleg = [c for c in walk_no_nested(fn.node) if isinstance(c, ast.Call) and isinstance(c.func, ast.Attribute)
+                     and c.func.attr == "print_SequenceNode" and isinstance(c.func.value, ast.Call) and call_name(c.func.value) == "super"]
+            if not deleg:
+                continue
+            n += 1
+            ok = False
+            for i_ in walk_no_nested(fn.node):
+                if isinstance(i_, ast.If):
+                    t = ast.unparse(i_.test).replace(" ", "")
+                    empt = "len(" in t and ("==0" in t or t.startswith("notlen(")) or t.startswith("not") and "len(" not in t and "isinstance" not in t
+                    writes = [c for s_ in i_.body for c in ast.walk(s_) if isinstance(c, ast.Call) and isinstance(c.func, ast.Attribute)
+                              and c.func.attr == "write" and c.args and isinstance(c.args[0], ast.Constant) and isinstance(c.args[0].value, str)
+                              and c.args[0].value.strip()]
+                    if empt and writes and i_.lineno < deleg[0].lineno:
+                        ok = True
+            if ok:
+                ctx.proved("R12d", fn.file, f"{short}.{name}", deleg[0], f"{short}.{name} empty form", "an empty node is written in an explicit empty form before delegating")
+            else:
+                ctx.violation("R12d", fn.file, f"{short}.{name}", deleg[0], f"{short}.{name} empty form",
+                              f"{short} is built with empty opening and closing symbols and {name} hands the node to "
+                              f"SequenceFormatter.print_SequenceNode without looking at its length: an empty container prints as the empty "
+                              f"string (`a: []` becomes `a: `), which the loader reads back as null - the document does not survive a print")
+    ctx.floor("R12d", n, 2, "delegating handlers of symbol-less sequence formatters")
+
+
 def run(ctx):
+    r12d(ctx)
     e9_json(ctx)
     r12c(ctx)
     e9_csv(ctx)
